@@ -554,6 +554,10 @@ func (s *StateMachine) PoolAdd(id uint64, amountToAdd uint64) lib.ErrorI {
 	if err != nil {
 		return err
 	}
+	// ensure add operation is safe from uint64 overflow
+	if pool.Amount > math.MaxUint64-amountToAdd {
+		return ErrInvalidAmount()
+	}
 	pool.Amount += amountToAdd
 	return s.SetPool(pool)
 }
@@ -618,6 +622,10 @@ func (s *StateMachine) AddToTotalSupply(amount uint64) lib.ErrorI {
 	supply, err := s.GetSupply()
 	if err != nil {
 		return err
+	}
+	// ensure add operation is safe from uint64 overflow
+	if supply.Total > math.MaxUint64-amount {
+		return ErrInvalidAmount()
 	}
 	// add to the total supply
 	supply.Total += amount
